@@ -14,7 +14,7 @@ from .. import build, sp
 ID = "C10"
 META = {
     "technique": "runtime monitoring: rule/restore-law/integer-rule postconditions on the real enclosing middlewares + re-parse monitor through Splitter, over an exhaustive small-value space x all option sets",
-    "level_text": "Every string of length <= 4 over {{,},\",a,space,#,\\} plus grammar-generated values, digit strings and Python ints is run through RemoveEnclosing and AddEnclosing under all 8 option sets, both in-place modes, numeric and non-numeric field keys and @string blocks; results are compared with the one-positional-pair rule, the restore law, the integer rule, and default-enclosed values are written into an entry and re-parsed by the real splitter. The re-parse libraries also hold an @string block and an entry NAMED like the field's content.",
+    "level_text": "Every string of length <= 4 over {{,},\",a,space,#,\\} plus grammar-generated values, digit strings and Python ints is run through RemoveEnclosing and AddEnclosing under all 8 option sets, both in-place modes, numeric and non-numeric field keys and @string blocks; results are compared with the one-positional-pair rule, the restore law, the integer rule, and default-enclosed values are written into an entry and re-parsed by the real splitter. The re-parse libraries also hold an @string block and an entry NAMED like the field's content. Between removal and re-adding with reuse one of ten shipped middlewares runs on an entry with title/month/year/author/Month fields and a @string: every value that step left alone must be restored exactly; 25 contents other middlewares care about (numbers in and out of the month range, month names, macro names, name lists, URLs, LaTeX) in six enclosings are each run against twenty rotations.",
     "level_note": "'one outer pair' is positional (first and last character of the trimmed value, length >= 2); re-parse claim only for brace-balanced values not ending in a backslash (and without a bare quote for the quote default)",
 }
 RULE = ("case = one value (string over the small alphabet, grammar value, digit string, int); each is checked under 8 AddEnclosing option sets x 2 modes x "
